@@ -7,11 +7,14 @@
 CarrierMeta ==
   [Model   |-> << [name |-> "imports", many |-> TRUE, decl |-> "Import"],
                   [name |-> "first", many |-> FALSE, decl |-> "Def"],
+                  [name |-> "root", many |-> FALSE, decl |-> "Pkg"],
                   [name |-> "elems", many |-> TRUE, decl |-> "Elem"] >>,
    Import  |-> << >>,
    Pkg     |-> << [name |-> "head", many |-> FALSE, decl |-> "DefB"],
                   [name |-> "defs", many |-> TRUE, decl |-> "Def"],
-                  [name |-> "elems", many |-> TRUE, decl |-> "Elem"] >>,
+                  [name |-> "elems", many |-> TRUE, decl |-> "Elem"],
+                  [name |-> "note", many |-> FALSE, decl |-> "Note"] >>,
+   Note    |-> << >>,
    Grp     |-> << [name |-> "items", many |-> TRUE, decl |-> "Def"] >>,
    Box     |-> << [name |-> "inner", many |-> FALSE, decl |-> "Cell"] >>,
    Slot    |-> << [name |-> "val", many |-> FALSE, decl |-> "Value"] >>,
@@ -23,6 +26,8 @@ Allowed(decl) ==
     [] decl = "Def"    -> {"DefA", "DefB"}
     [] decl = "DefB"   -> {"DefB"}
     [] decl = "Cell"   -> {"Cell"}
+    [] decl = "Pkg"    -> {"Pkg"}
+    [] decl = "Note"   -> {"Note"}
     [] decl = "Value"  -> {"Plain", "Cell"}      \* Value: Tag | Cell;  Tag is a match rule
     [] decl = "Elem"   -> {"Pkg", "Grp", "Box", "Slot", "DefA", "DefB", "Use", "UseList"}
 =============================================================================
